@@ -12,11 +12,12 @@
    The full statement is FALSE for the implementation (the `_refuted` theorems below exhibit the witnesses; each is a listed
    known finding, or the accepted sum/count convention).  The guarded statement is `_partial`: it covers every operator kind
    (table, extend with and without window, project, select_rows, select/drop/rename/map_columns, order_rows with and without
-   limit, natural_join inner/left/right/full with equally or differently named keys, concat_rows) but, through the CVocab /
-   CJoinKeyed components of the guard, not: the ordered window functions that Polars 1.44.2 still has (shift, first, last,
+   limit, natural_join inner/left/right/full with equally or differently named keys, concat_rows; any column names, also
+   ones that look like the executor's scratch names) but, through the CVocab / CJoinKeyed components of the guard, not: the ordered window functions that Polars 1.44.2 still has (shift, first, last,
    ffill, bfill), aggregates of a constant `(1).sum()`, joins WITHOUT keys (CROSS: the scratch key column), methods outside
-   the vocabulary of Model/Sem.v; those are covered by the correspondence and the oracle only.  CSortTies / CGroupKeyRepr
-   state that the result is determined at all (no ties under a limit; equal group keys are written the same way).  In a select_rows predicate
+   the vocabulary of Model/Sem.v; those are covered by the correspondence and the oracle only.  CColumnsExist says that a
+   step only reads columns its source has (every pipeline made by the builder).  CSortTies / CGroupKeyRepr state that the
+   result is determined at all (no ties under a limit; equal group keys are written the same way).  In a select_rows predicate
    a comparison other than != may see nulls under and / or (filter_nulls_ok): null and False both drop the row. *)
 From Coq Require Import List Bool Arith ZArith QArith String Permutation.
 Import ListNotations.
@@ -97,12 +98,16 @@ Theorem C03_sort_null_placement_refuted :
 Proof. witness [VNull; Q2 2 1]. Qed.
 Print Assumptions C03_sort_null_placement_refuted.
 
-(* a user column that carries the name of a temporary column is silently overwritten *)
-Theorem C03_reserved_column_name_refuted :
-  differs (OExtend (OTable "d" ["a"; "_da_extend_temp_partition_column"]) [("x", EOp "sum" [ECol "a"])] true (mkwin [] [] []))
-          [("d", mktable ["a"; "_da_extend_temp_partition_column"] [[Q2 2 1; Q2 5 1]])] [CReserved].
-Proof. witness [Q2 2 1; Q2 1 1; Q2 2 1]. Qed.
-Print Assumptions C03_reserved_column_name_refuted.
+(* regression example for repair 85ef226 (scratch columns and join suffixes are named away from the names in use): the former
+   witness of C03_reserved_column_name_refuted -- a user column called like the partition stand-in -- is inside the guard,
+   keeps its value, and the two sides agree *)
+Example C03_reserved_column_name_agrees :
+  let p := OExtend (OTable "d" ["a"; "_da_extend_temp_partition_column"]) [("x", EOp "sum" [ECol "a"])] true (mkwin [] [] []) in
+  let e := [("d", mktable ["a"; "_da_extend_temp_partition_column"] [[Q2 2 1; Q2 5 1]])] in
+  agree_guardb p e = true /\
+  plexec p e = Ok (mktable ["a"; "_da_extend_temp_partition_column"; "x"] [[Q2 2 1; Q2 5 1; Q2 2 1]]) /\
+  sem_gen fl_pandas p e = Some (mktable ["a"; "_da_extend_temp_partition_column"; "x"] [[Q2 2 1; Q2 5 1; Q2 2 1]]).
+Proof. cbv zeta. split; [vm_compute; reflexivity|split; vm_compute; reflexivity]. Qed.
 
 (* the accepted convention: sum / count / size of an ungrouped project over an empty input (Polars null, Pandas 0) *)
 Theorem C03_empty_ungrouped_sum_convention_refuted :
